@@ -229,9 +229,16 @@ class FnAnalysis:
             # a callable value bound to a local name (`f = lambda v: v`, `f = operator.dot`): remember every candidate (the branches of an if may bind different ones)
             self.callables.setdefault(st.targets[0].id, []).append(st.value)
         if isinstance(st, ast.Assign):
-            v = self.ev(st.value)
-            for t in st.targets:
-                self.assign(t, v, st)
+            if len(st.targets) == 1 and isinstance(st.targets[0], (ast.Tuple, ast.List)) and isinstance(st.value, (ast.Tuple, ast.List)) and \
+                    len(st.targets[0].elts) == len(st.value.elts) and not any(isinstance(x, ast.Starred) for x in st.targets[0].elts + st.value.elts):
+                # a, b = x, y : element by element (all right-hand sides are evaluated first), so that what each target is bound to stays known
+                vs = [self.ev(x) for x in st.value.elts]
+                for t, v in zip(st.targets[0].elts, vs):
+                    self.assign(t, v, st)
+            else:
+                v = self.ev(st.value)
+                for t in st.targets:
+                    self.assign(t, v, st)
         elif isinstance(st, ast.AnnAssign):
             if st.value is not None:
                 self.assign(st.target, self.ev(st.value), st)
@@ -338,6 +345,11 @@ class FnAnalysis:
                 if t.attr == 'cores' and any(a.startswith('C:') for a in v.alias):
                     # X.cores = Y.cores : two objects around one list object (R-c)
                     self.summary.shares.append((getattr(node, 'lineno', 0), norm_text(node, 120)))
+                own_paths = {tpath(a) for a in base.alias if a.startswith('P:')}
+                if t.attr in ('row_dims', 'col_dims', 'ranks') and any(a.startswith('M:') and tpath(a) not in own_paths for a in v.alias):
+                    # X.row_dims = Y.col_dims : two objects around one metadata list (an in-place operation on one -- rank_transpose, a partial transpose, a store
+                    # into row_dims[k] -- silently changes the other's metadata)
+                    self.summary.shares.append((getattr(node, 'lineno', 0), norm_text(node, 120) + '  [metadata list]'))
             if isinstance(t.value, ast.Name):
                 cur = self.env.get(t.value.id)
                 if cur is not None:
